@@ -42,7 +42,7 @@ def field_index(prog):
     if info is None:
         raise AnchorLost("struct %s not found" % ITER)
     names = [f["name"] for f in info["variants"][0]["fields"]]
-    need = ["buffer", "buffer_offset", "buffered_byte_length", "internal_buffer_position", "tag_stack", "emission_queue",
+    need = ["has_determined_doc_path", "buffer", "buffer_offset", "buffered_byte_length", "internal_buffer_position", "tag_stack", "emission_queue",
             "allowed_errors", "max_allowed_tag_size", "emit_master_end_when_eof"]
     for n in need:
         if n not in names:
@@ -117,6 +117,7 @@ class IterAnalysis:
         self.allowed_errors = allowed_errors
         self.extra = {}            # key -> dict(kind, desc, fn, where, ok, witness)
         self.err_kinds = set()     # corruption kinds constructed on reachable paths
+        self.peek_ok_types = set()
         self.eng = None
         self.exits = None
         self.wall = 0.0
@@ -210,6 +211,11 @@ class IterAnalysis:
             v = st.cells.get(frame.cell(0))
             if isinstance(v, Enum) and 0 in v.variants:
                 t = v.variants[0][0]
+                ty = t.fields[1] if isinstance(t, Struct) and len(t.fields) > 1 else None
+                if isinstance(ty, Enum):
+                    self.peek_ok_types |= {"None" if i == 0 else "Some" for i in ty.variants}
+                else:
+                    self.peek_ok_types |= {"?"}
                 hl = t.fields[3] if isinstance(t, Struct) and len(t.fields) > 3 else None
                 ok = isinstance(hl, Int) and hl.lo >= 2 and hl.hi <= 16
                 self.note("ADVANCE", frame.body.path, "an accepted header is 2..=16 bytes long", frame.body.span, ok, st, frame)
@@ -262,9 +268,22 @@ class IterAnalysis:
         self.self_ty = body.locals[1]["ty"]["to"] if body.locals[1]["ty"].get("k") == "ref" else None
         ix = self.ix
 
+        force = None
+        if isinstance(self.allowed_errors, tuple):
+            force = self.allowed_errors[1]
+            eng.models = dict(eng.models)
+            if force == "unknown_id":
+                eng.models["ebml_iterable_specification::EbmlSpecification::get_tag_data_type"] = lambda c: c.ret(Enum("std::option::Option", {0: ()}))
+            elif force == "matcher":
+                eng.models["spec_util::validate_tag_path"] = lambda c: c.ret(Int.const(0, 1, False))
+            elif force == "overrun":
+                eng.models[ITER + "::is_invalid_tag_size"] = lambda c: c.ret(Int.const(1, 1, False))
+
         def setup(eng_, st, frame):
             r = st.cells[frame.cell(1)]
-            ae = self.allowed_errors if isinstance(self.allowed_errors, int) else None
+            ae = self.allowed_errors if isinstance(self.allowed_errors, int) else (self.allowed_errors[0] if isinstance(self.allowed_errors, tuple) else None)
+            if force == "matcher":
+                st.cells[r.cell] = set_at(st.cells[r.cell], (ix["has_determined_doc_path"],), Int.const(1, 1, False))
             mx = None
             if self.allowed_errors == "limit":
                 mx = Enum("std::option::Option", {1: (Int(0, OFF, 64, False),)})
@@ -290,7 +309,7 @@ class IterAnalysis:
                         "witness": o.witness})
         return {
             "entry": self.entry_key, "label": self.label, "allowed_errors": self.allowed_errors,
-            "obligations": obs, "extra": list(self.extra.values()), "err_kinds": sorted(self.err_kinds),
+            "obligations": obs, "extra": list(self.extra.values()), "err_kinds": sorted(self.err_kinds), "peek_ok_types": sorted(self.peek_ok_types),
             "assumptions": sorted(self.eng.assumptions), "notes": self.eng.notes[:20], "unmodelled": dict(self.eng.unmodelled),
             "steps": self.eng.steps, "wall": self.wall, "exits": len(self.exits or []), "exit_shapes": sorted(self.exit_shapes),
         }
@@ -880,4 +899,153 @@ def r_recover(ctx):
     rep.oblige(not bad and bool(errs), "RECOVER-ERRSET", "src/tag_iterator.rs", "try_recover may fail with %s (only ReadError / UnexpectedEOF are allowed)" % sorted(bad))
     _extra(res, rep, "INV", "INV", 1)
     rep.assumed.extend([A_OFF, A_64, "A-READ: R::read(buf) returns Ok(n) only with n <= buf.len()"])
+    return rep
+
+
+# ----------------------------------------------------------------------------------------------------
+# C13
+# ----------------------------------------------------------------------------------------------------
+TOL_KINDS = {"InvalidTagIds": "InvalidTagId", "HierarchyProblems": "HierarchyError", "OversizedTags": "OversizedChildElement"}
+
+
+def tolerance_bits(ctx, rep):
+    """AllowableErrors variant -> bit, by abstract evaluation of allow_errors on a one-element slice"""
+    prog = ctx.prog
+    ix = field_index(prog)
+    info = prog.adts.get("tag_iterator_util::AllowableErrors")
+    if info is None:
+        raise AnchorLost("enum AllowableErrors not found")
+    body = find_one(prog, "TagIterator::allow_errors")
+    bits = {}
+    for vi, v in enumerate(info["variants"]):
+        eng = absrun.make_engine(prog)
+
+        def setup(eng_, st, frame, vi=vi):
+            r = st.cells[frame.cell(2)]
+            el = Enum("tag_iterator_util::AllowableErrors", {vi: ()})
+            st.cells[r.cell] = Arr(Int.const(1, 64, False), el, {0: el}, "slice")
+        exits, frame = absrun.analyze(eng, body, None, setup)
+        vals = set()
+        for e in exits:
+            x = get_at(e.cells[("H", "arg", 1)], (ix["allowed_errors"],))
+            vals.add((x.lo, x.hi) if isinstance(x, Int) else None)
+        rep.instance("allow_errors([%s]) -> allowed_errors = %s" % (v["name"], sorted(map(str, vals))))
+        ok = len(vals) == 1 and None not in vals and list(vals)[0][0] == list(vals)[0][1] and list(vals)[0][0] in (1, 2, 4, 8, 16, 32, 64, 128)
+        rep.oblige(ok, "TOL-TABLE|%s|single-bit" % v["name"], body.span, "allow_errors([%s]) sets allowed_errors to %s, not a single bit" % (v["name"], vals))
+        if ok:
+            bits[v["name"]] = list(vals)[0][0]
+    rep.oblige(len(set(bits.values())) == len(bits) == 3, "TOL-TABLE|distinct", body.span, "tolerance bits are not three distinct bits: %s" % bits)
+    # empty slice -> 0 (strict)
+    eng = absrun.make_engine(prog)
+
+    def setup0(eng_, st, frame):
+        r = st.cells[frame.cell(2)]
+        st.cells[r.cell] = Arr(Int.const(0, 64, False), Enum("tag_iterator_util::AllowableErrors", {0: ()}), None, "slice")
+    exits, frame = absrun.analyze(eng, body, None, setup0)
+    z = {repr(get_at(e.cells[("H", "arg", 1)], (ix["allowed_errors"],))) for e in exits}
+    rep.oblige(z == {"0u8"}, "TOL-TABLE|empty-is-strict", body.span, "allow_errors(&[]) leaves %s" % z)
+    return bits
+
+
+def r_tol(ctx):
+    rep = RuleReport("R-TOL", "for each of the 8 tolerance masks, abstract interpretation of header validation: a corruption kind is constructible "
+                     "exactly when its own bit is clear (InvalidTagSize / InvalidTagData for every mask); with the id bit clear no raw (untyped) header is accepted")
+    prog = ctx.prog
+    bits = tolerance_bits(ctx, rep)
+    if len(bits) != 3:
+        return rep
+    entry = ITER + "::peek_valid_tag_header"
+    jobs = [(entry, k) for k in range(8)]
+    # masks are expressed with the *actual* bits
+    allb = sorted(bits.values())
+    masks = []
+    for k in range(8):
+        m = 0
+        for i, b in enumerate(allb):
+            if k & (1 << i):
+                m |= b
+        masks.append(m)
+    jobs = [(entry, m) for m in masks]
+    results = run_analyses(ctx, jobs)
+    for m in masks:
+        res = results[(entry, m)]
+        kinds = set(res["err_kinds"])
+        for vname, kind in TOL_KINDS.items():
+            tolerated = bool(m & bits[vname])
+            rep.instance("mask %d: %s %s" % (m, kind, "tolerated" if tolerated else "enforced"))
+            rep.oblige((kind in kinds) == (not tolerated), "TOL|mask=%d|%s" % (m, kind), "src/tag_iterator.rs",
+                       "with allowed_errors=%d, %s is %s (expected %s)" % (m, kind, "constructible" if kind in kinds else "not constructible",
+                                                                        "not constructible" if tolerated else "constructible"))
+        for kind in ("InvalidTagSize", "InvalidTagData"):
+            rep.oblige(kind in kinds, "TOL|mask=%d|%s" % (m, kind), "src/tag_iterator.rs", "with allowed_errors=%d, %s is no longer constructible" % (m, kind))
+        if not (m & bits["InvalidTagIds"]):
+            rep.oblige(set(res["peek_ok_types"]) == {"Some"}, "STRICT-NORAW|mask=%d" % m, "src/tag_iterator.rs",
+                       "with unknown ids not tolerated, a header with type %s can be accepted" % res["peek_ok_types"])
+        else:
+            rep.oblige("None" in res["peek_ok_types"], "STRICT-NORAW|mask=%d|tolerant" % m, "src/tag_iterator.rs", "tolerating unknown ids does not let raw tags through")
+    # a tolerated failing check must not shadow the later checks
+    order = ["InvalidTagIds", "HierarchyProblems", "OversizedTags"]
+    forces = {"InvalidTagIds": "unknown_id", "HierarchyProblems": "matcher", "OversizedTags": "overrun"}
+    jobs2 = []
+    for xi, x in enumerate(order):
+        for m in masks:
+            if m & bits[x]:
+                jobs2.append((entry, (m, forces[x])))
+    res2 = run_analyses(ctx, jobs2)
+    for xi, x in enumerate(order):
+        for m in masks:
+            if not (m & bits[x]):
+                continue
+            r = res2[(entry, (m, forces[x]))]
+            kinds = set(r["err_kinds"])
+            later = [TOL_KINDS[y] for y in order[xi + 1:] if not (m & bits[y])]
+            if x == "InvalidTagIds":
+                later = [k for k in later if k != "HierarchyError"]       # the hierarchy check does not apply to untyped (raw) elements
+            for kind in later + ["InvalidTagSize"]:
+                rep.instance("mask %d, %s failing but tolerated: %s still enforced" % (m, TOL_KINDS[x], kind))
+                rep.oblige(kind in kinds, "TOL-SHADOW|mask=%d|%s|%s" % (m, x, kind), "src/tag_iterator.rs",
+                           "with allowed_errors=%d and a tolerated %s, the %s check is no longer reachable" % (m, TOL_KINDS[x], kind))
+            rep.oblige(TOL_KINDS[x] not in kinds, "TOL-SHADOW|mask=%d|%s|silenced" % (m, x), "src/tag_iterator.rs",
+                       "with allowed_errors=%d the tolerated kind %s is still constructible" % (m, TOL_KINDS[x]))
+    rep.require_floor(40, "mask x kind cases")
+    return rep
+
+
+def r_tol_default(ctx):
+    rep = RuleReport("R-TOL-DEFAULT", "allowed_errors and max_allowed_tag_size are written only by the constructor (0 and Some(limit > 0)) and their setters; "
+                     "emit_master_end_when_eof only by the constructor and its setter")
+    prog = ctx.prog
+    allowed = {"allowed_errors": {"with_capacity", "allow_errors"}, "max_allowed_tag_size": {"with_capacity", "set_max_allowable_tag_size"},
+               "emit_master_end_when_eof": {"with_capacity", "emit_master_end_when_eof"}}
+    n = 0
+    for b in prog.bodies.values():
+        if b.promoted_index is not None or b.crate != "ebml_iterable":
+            continue
+        root = prog.function_root(b)
+        rn = root.name if root else b.name
+        for fld, ok_fns in allowed.items():
+            for bb, i, st in _field_writes(b, fld):
+                n += 1
+                rep.instance("%s writes %s" % (b.key, fld))
+                rep.oblige(rn in ok_fns, "TOL-DEFAULT|%s|%s" % (fld, rn), b.span, "%s is written in %s" % (fld, b.key))
+    # constructor values
+    wc = find_one(prog, "TagIterator::with_capacity")
+    for bb, i, st in wc.statements():
+        if st["k"] == "assign" and st["rv"].get("agg") == "adt" and strip_generics(st["rv"]["path"]) == ITER:
+            n += 1
+            flds = st["rv"]["fields"]
+            ops = st["rv"]["ops"]
+            ae = ops[flds.index("allowed_errors")]
+            rep.oblige(ae.get("k") == "const" and str(ae.get("v")) == "0", "TOL-DEFAULT|ctor|allowed_errors", wc.span, "the constructor does not start strict (allowed_errors = %s)" % ae.get("v"))
+            em = ops[flds.index("emit_master_end_when_eof")]
+            rep.oblige(em.get("k") == "const" and str(em.get("v")) == "1", "TOL-DEFAULT|ctor|emit_eof", wc.span, "the constructor does not enable EOF closing by default")
+            mx = ops[flds.index("max_allowed_tag_size")]
+            src = mx.get("place", {}).get("local")
+            good = False
+            for b2, i2, st2 in wc.statements():
+                if st2["k"] == "assign" and st2["place"]["local"] == src and st2["rv"].get("agg") == "adt" and st2["rv"].get("variant") == "Some":
+                    good = True
+            rep.oblige(good, "TOL-DEFAULT|ctor|limit", wc.span, "the constructor does not install a default size limit (Some(..))")
+    if n < 4:
+        raise AnchorLost("R-TOL-DEFAULT: only %d writes of the settings found" % n)
     return rep
